@@ -134,6 +134,64 @@ type advTok struct {
 	nblocks int
 }
 
+var binCode = map[string]uint64{"lt": 0, "gt": 1, "le": 2, "ge": 3, "eq": 4, "contains": 5, "prefix": 6, "suffix": 7, "regex": 8,
+	"add": 9, "sub": 10, "mul": 11, "div": 12, "and": 13, "or": 14, "inter": 15, "union": 16}
+var unCode = map[string]uint64{"neg": 0, "par": 1, "len": 2}
+
+// wireOps encodes an operator sequence of the expr family (JSON list of XOp) as an ExpressionV2 message; strings are
+// interned into the block's own symbol list
+func wireOps(js string, symbols *[]string) []byte {
+	var ops []XOp
+	if err := json.Unmarshal([]byte(js), &ops); err != nil {
+		return exprW()
+	}
+	var termW func(v Val) []byte
+	termW = func(v Val) []byte {
+		switch v.T {
+		case "int":
+			i, _ := v.I.int64()
+			return tInt(i)
+		case "str":
+			str := string(bytesOf(v.S))
+			for i, x := range *symbols {
+				if x == str {
+					return tStr(1024 + uint64(i))
+				}
+			}
+			*symbols = append(*symbols, str)
+			return tStr(1024 + uint64(len(*symbols)) - 1)
+		case "date":
+			u, _ := fromLimbs(*v.D)
+			return tDate(u)
+		case "bytes":
+			return tBytes(bytesOf(v.Y))
+		case "bool":
+			return tBool(*v.B)
+		case "set":
+			elts := [][]byte{}
+			for _, e := range *v.E {
+				elts = append(elts, termW(e))
+			}
+			return tSet(elts...)
+		}
+		return []byte{}
+	}
+	out := [][]byte{}
+	for _, op := range ops {
+		switch op.K {
+		case "val":
+			out = append(out, opVal(termW(*op.V)))
+		case "var":
+			out = append(out, opVal(tVar(uint64(*op.N))))
+		case "un":
+			out = append(out, opUn(unCode[op.O]))
+		case "bin":
+			out = append(out, opBin(binCode[op.O]))
+		}
+	}
+	return exprW(out...)
+}
+
 func buildAdv(knobs []Knob) advTok {
 	k := map[string]string{}
 	kseed := int64(17)
@@ -275,6 +333,10 @@ func buildAdv(knobs []Knob) advTok {
 		ex = exprW(opVal(tSet(tInt(1))), opVal(tSet(tBytes([]byte{1}))), opBin(16), opVal(tSet(tBytes([]byte{1}), tInt(1))), opBin(4))
 	case "inter-mixed-length":
 		ex = exprW(opVal(tSet(tInt(1), tInt(2))), opVal(tSet(tDate(1))), opBin(16), opVal(tSet(tDate(1), tBool(true))), opBin(15), opUn(2), one, opBin(4))
+	default:
+		if strings.HasPrefix(k["check.expr"], "x:") { // an explicit operator sequence (the cases of the expr family) inside a token
+			ex = wireOps(k["check.expr"][2:], &symbols)
+		}
 	case "deep-parens":
 		ops := [][]byte{opVal(tBool(true))}
 		for i := 0; i < 900; i++ {
